@@ -280,6 +280,10 @@ def run(ctx):
                     fold = c
                 else:
                     kinds.append("other:" + show_expr(c)[:60])
+            if fold is None:
+                lf = walker_loop_form(ctx, facts, roles, w, helper, cfg)
+                if lf:
+                    continue
             ctx.check(sorted(kinds) == ["None", "Some(data)", "fold"], "K5.walk-is-the-result", "the walker returns the entire data (empty key), None (scalar data) or exactly the fold over the segments (%s)" % cfg,
                       "the walker's results are %s — a lookup that failed along the path must stay absent (no fallback)" % kinds, where=w.where(), fn=w.key, nontrivial=True, sample={"results": kinds})
             if fold is not None:
@@ -372,11 +376,78 @@ def split_transducer(ctx, facts, w, it, cfg):
     ctx.check(any(e[1] is not None and e[1][0] == "moved" or (e[1] is not None and e[1][0] in ("clone", "taken")) for e in tr.tail_emits), "K6.last-segment", "the pending segment is emitted after the loop (%s)" % cfg, "no emission of the pending segment after the loop", where=sb.where(), fn=sb.key)
 
 
-def step_matrix(ctx, facts, roles, cb, helper, cfg):
+def walker_loop_form(ctx, facts, roles, w, helper, cfg):
+    """The dotted-path walk written as a loop: `let mut cur = data.clone(); for seg in split(key) { cur = step(cur, seg)?; } Some(cur)`.
+    Returns True when the shape was recognised and judged."""
+    from . import panic as PN
+    items = facts.items
+    loops = PN.loops_of(w)
+    if len(loops) != 1:
+        return False
+    h, bl, srcs = loops[0]
+    nbi = [bi for bi in sorted(bl) if w.blocks[bi]["term"]["k"] == "Call" and (callee_path(w.blocks[bi]["term"]) or "").endswith("::next")]
+    if len(nbi) != 1:
+        return False
+    it = w.trace(w.blocks[nbi[0]]["term"]["args"][0])
+    found = []
+    expr_mentions(it, lambda x: found.append(x) or False if (x[0] == "call" and x[1] and x[1]["local"] and items.get(x[1]["key"], {}).get("output") == "std::vec::Vec<std::string::String>") else False)
+    if not found:
+        return False
+    # the current value: the Value-typed local switched on inside the loop that is defined both before and inside it
+    cur = None
+    for sb in sorted(bl):
+        tt = w.blocks[sb]["term"]
+        if tt["k"] == "SwitchInt":
+            e = w.trace(tt["discr"])
+            if e[0] == "discr" and e[2] == VALUE:
+                x = strip_refs(e[1])
+                if x[0] == "phi":
+                    cur = x[1]
+    if cur is None:
+        return False
+    defs = w.defs().get(cur, [])
+    seeds = [d for d in defs if d[1] not in bl]
+    steps = [d for d in defs if d[1] in bl]
+    seed_ok = len(seeds) == 1 and strip_refs(w._trace_def(seeds[0], 0, frozenset()))[0] == "call" and strip_refs(w._trace_def(seeds[0], 0, frozenset()))[1]["path"] == CLONE and strip_refs(strip_refs(w._trace_def(seeds[0], 0, frozenset()))[2][0]) == ("arg", 1)
+    ctx.check(seed_ok, "K5.seed", "the walk starts at the entire data (%s)" % cfg, "the walk's current value starts as %s" % [show_expr(w._trace_def(d, 0, frozenset()))[:60] for d in seeds], where=w.where(), fn=w.key)
+    # inside the loop the current value is only replaced by the payload of the step's Option (`cur = next?`)
+    step_ok = bool(steps)
+    for d in steps:
+        ex = strip_refs(w._trace_def(d, 0, frozenset()))
+        step_ok = step_ok and ex[0] == "field" and ex[1][0] == "downcast" and ex[1][2] in ("Some", "Continue")
+    # results: Some(data) [empty key], None [scalar / absent step via `?`], Some(cur) after the loop
+    r = strip_refs(w.trace(0))
+    cands = [strip_refs(x) for x in r[2]] if r[0] == "phi" else [r]
+    kinds = []
+    for c in cands:
+        if c[0] == "agg" and c[1].get("variant") == "None":
+            kinds.append("None")
+        elif c[0] == "call" and c[1] and "from_residual" in c[1]["path"]:
+            kinds.append("None")
+        elif c[0] == "agg" and c[1].get("variant") == "Some":
+            v = strip_refs(c[2][0])
+            if v[0] == "call" and v[1]["path"] == CLONE and strip_refs(v[2][0]) == ("arg", 1):
+                kinds.append("Some(data)")
+            elif v[0] == "phi" and v[1] == cur:
+                kinds.append("Some(current)")
+            else:
+                kinds.append("other:" + show_expr(v)[:50])
+        else:
+            kinds.append("other:" + show_expr(c)[:50])
+    ctx.check(step_ok and set(kinds) == {"None", "Some(data)", "Some(current)"}, "K5.walk-is-the-result", "the walker returns the entire data (empty key), None (scalar data / absent step) or the value the loop over the segments ends on (%s)" % cfg,
+              "the walker's results are %s (current value replaced only by the step's payload: %s) — a lookup that failed along the path must stay absent" % (sorted(set(kinds)), step_ok), where=w.where(), fn=w.key, nontrivial=True)
+    ctx.ok("K5.split", "segments come from the escape-aware splitter (%s)" % cfg)
+    split_transducer(ctx, facts, w, it, cfg)
+    step_matrix(ctx, facts, roles, w, helper, cfg, is_cur=lambda e: strip_refs(e)[0] == "phi" and strip_refs(e)[1] == cur)
+    return True
+
+
+def step_matrix(ctx, facts, roles, cb, helper, cfg, is_cur=None):
     """Per kind of the current value: which access the step performs."""
-    def is_cur(e):
+    def _is_cur(e):
         e = strip_refs(e)
         return expr_mentions(e, lambda x: x[0] == "arg" and x[1] == 2) or expr_mentions(e, lambda x: x[0] == "call" and x[1] and "Try>::branch" in x[1]["path"])
+    is_cur = is_cur or _is_cur
     for v in facts.variants(VALUE):
         restrict = P.specialise_unit(roles, cb.key, lambda e, a, _v=v: _v if (a == VALUE and is_cur(e)) else None)
         blocks = restrict[cb.key]
